@@ -159,7 +159,9 @@ def gen(rng, broker, tier):
         for i in range(rng.randint(2, 6)):
             jobs.append({"args": {"v": _rand_value(rng), "w": _rand_value(rng)},
                          "args_id": rng.choice([None, ids[0], ids[0], ids[1]]), "fail_first": rng.random() < 0.25,
-                         "id": rng.choice([None, None, "same"])})
+                         "id": rng.choice([None, None, "same"]),
+                         # settings which have to arrive unchanged at every delivery, the retried one included
+                         "ttl_s": rng.choice([None, 3600, 90_000]), "timeout_s": rng.choice([None, 30, 86_400 * 2])})
         burst = rng.random() < 0.4
         if burst:
             # all jobs are enqueued before the worker takes the first: the same explicit message id on two different queues
@@ -313,6 +315,7 @@ async def _sequence(sim, sc, out):
     connp, connw = world.conn("p"), world.conn("w")
     V = out["violations"]
     calls: list = []
+    sent: dict = {}
     if sc.get("slow_args_store_us"):
         ab = connp.args_bucket_broker
         inner_store = ab.store_bucket
@@ -355,9 +358,14 @@ async def _sequence(sim, sc, out):
             if j["id"] is not None:
                 kw["id_"] = "fixed-id"
             qn = j.get("queue", "q")
+            if j.get("ttl_s"):
+                kw["ttl"] = timedelta(seconds=j["ttl_s"])
+            if j.get("timeout_s"):
+                kw["timeout"] = timedelta(seconds=j["timeout_s"])
             job = r.Job("act" if qn == "q" else "act2", queue=qn, args=args, use_args_bucketer=True,
                         retries=1 if j["fail_first"] else 0, store_result=False, _connection=connp, **kw)
-            await job.enqueue()
+            k_, _p, prm_ = await job.enqueue()
+            sent[i] = (k_.id_, params_snapshot(prm_))
             if sc.get("burst"):
                 continue
             need = 2 if j["fail_first"] else 1
@@ -376,6 +384,17 @@ async def _sequence(sim, sc, out):
         await asyncio.wait_for(asyncio.shield(wt), timeout=30)
     except asyncio.TimeoutError:
         wt.cancel()
+    # the settings of a job arrive unchanged at every delivery (a retry changes the attempt counter and the next time only)
+    if not any(x.get("id") for x in sc["jobs"]):
+        for i, (mid, snap) in sent.items():
+            for e in world.rec.events:
+                if e.op == "consume" and e.outcome == "returned" and e.id == mid and e.node == "w" and e.result:
+                    got_p = e.result["params"]
+                    for f in ("ttl", "timeout", "max", "result", "until", "by", "ts"):
+                        if got_p.get(f) != snap.get(f):
+                            V.append(violation("parameters-differ", f"C07/{b}/sequence/parameters-{f}-differ-at-delivery-with-tried-{min(got_p.get('tried', 0), 2)}",
+                                               job=i, got=got_p.get(f), want=snap.get(f)))
+                            break
     for i, j in enumerate(sc["jobs"]):
         want = _normalise({k: _materialise(x) for k, x in j["args"].items()})
         mine = [c[1] for c in calls if c[0] == i]
